@@ -4,5 +4,13 @@ verus! {
 //@include shims.rs
 //@include types_error.rs
 //@include types_tokens.rs
+//@include types_ast.rs
+pub trait ToRange { fn to_range(&self) -> Range<usize>; }
+impl ToRange for AstInfo { fn to_range(&self) -> Range<usize> { self.range.start..self.range.end } }
+impl ToRange for Identifier { fn to_range(&self) -> Range<usize> { self.info.to_range() } }
+//@extract spl_frontend/src/ast.rs :: derive ToRange :: enum TypeExpression
+//@end
+//@extract spl_frontend/src/ast.rs :: derive ToRange :: struct BinaryExpression
+//@end
 }
 fn main() {}
